@@ -432,7 +432,7 @@ def _value_line_tokenizer(func):
         for line in v.splitlines(keepends=True):
             # Only the first line (the rest of the field line) can be blank
             assert first_line or not _RE_WHITESPACE_LINE.match(line)
-            if line.startswith("#"):
+            if not first_line and line.startswith("#"):
                 yield Deb822CommentToken(line)
                 continue
             has_newline = False
